@@ -267,3 +267,49 @@ def conditional_rules(chk, repo):
             chk.ok("C15.oserror", c, "an OSError while examining the path (e.g. ENAMETOOLONG) is answered 404 / 403")
         else:
             chk.violation("C15.oserror", c, K.short(c), "except OSError: raise HTTPNotFound()", "is_dir() raises OSError for e.g. a path segment longer than the file system allows; only PermissionError is handled, the request ends in a 500")
+    # ---- C15.listing: names the file system hands out are not always encodable (surrogate escapes): the page is encoded leniently -------------
+    for c, b in K.exprs(rp, "self._directory_as_html($P)"):
+        # the Response built from the listing: directly (text=...) or through a local
+        users = []
+        st = K.stmt_of(c)
+        holder = st.targets[0].id if isinstance(st, ast.Assign) and isinstance(st.targets[0], ast.Name) else None
+        for r in prog.calls_in(rp.node):
+            if norm.raw(r.func) != "Response":
+                continue
+            for k in r.keywords:
+                if any(x is c for x in ast.walk(k.value)) or (holder and any(isinstance(x, ast.Name) and x.id == holder for x in ast.walk(k.value))):
+                    users.append((r, k))
+        if not users:
+            chk.analysis_error("C15.listing: the Response carrying the directory index was not found")
+        for r, k in users:
+            lenient = k.arg == "body" and any(isinstance(e, ast.Call) and isinstance(e.func, ast.Attribute) and e.func.attr == "encode"
+                                              and any(isinstance(a, ast.Constant) and a.value in ("replace", "surrogateescape", "backslashreplace", "xmlcharrefreplace", "ignore") for a in list(e.args) + [kw.value for kw in e.keywords])
+                                              for e in ast.walk(k.value))
+            if lenient:
+                chk.ok("C15.listing", r, "the index page is encoded with an error handler: an entry whose name is not valid UTF-8 does not fail the listing")
+            else:
+                chk.violation("C15.listing", r, K.short(r, 70), "body=<page>.encode('utf-8', 'replace')",
+                              "the index page is encoded strictly (Response(text=...)): one file whose name is not valid UTF-8 (Python returns it with surrogate escapes) turns the enabled listing of the whole directory into a 500 and a closed connection")
+    # ---- C15.rangecode: Content-Range describes bytes of the stored representation; such a slice is not content-coded on the fly ----------------
+    crs = [s_ for s_, _b in K.stmts(po, "self._headers[hdrs.CONTENT_RANGE] = $V") if "bytes */" not in norm.raw(s_)]
+    if not crs:
+        chk.analysis_error("C15.rangecode: the 206 Content-Range assignment was not found in FileResponse._prepare_open_file")
+    for s_ in crs:
+        blk = PC._block_of(s_) or []
+        off = any(isinstance(x, ast.Assign) and norm.raw(x.targets[0]) == "self._compression" and isinstance(x.value, ast.Constant) and not x.value.value for x in blk)
+        guarded = PC.has_lit(PC.pc(s_, raw=True), [("self._compression", False), ("not self._compression", True)], True) is not None
+        if off or guarded:
+            chk.ok("C15.rangecode", s_, "a 206 slice is sent as stored: on-the-fly compression is off whenever Content-Range is set")
+        else:
+            chk.violation("C15.rangecode", s_, K.short(s_, 70), "self._compression = False (or ignore Range when the response is compressed)",
+                          "FileResponse supports enable_compression() (e.g. from a middleware) and applies a Range regardless: the 206 announces `bytes 10-19/1024` and carries gzip(data[10:20]) - neither the announced bytes nor bytes 10-19 of the gzip representation served under the same ETag; a client resuming with If-Range splices garbage")
+    # ---- C15.ifrange (date form): RFC 9110 13.1.5 - an If-Range date matches only the exact Last-Modified value -----------------------------
+    cmps = [c for c in ast.walk(po.node) if isinstance(c, ast.Compare) and "ifrange.timestamp()" in norm.raw(c) and "mtime" in norm.raw(c)]
+    if not cmps:
+        chk.analysis_error("C15.ifrange: the If-Range date comparison was not found in FileResponse._prepare_open_file")
+    for c in cmps:
+        if isinstance(c.ops[0], ast.Eq):
+            chk.ok("C15.ifrange", c, "an If-Range date enables the Range only when it equals the file's Last-Modified")
+        else:
+            chk.violation("C15.ifrange", c, norm.raw(c), "file_mtime == ifrange.timestamp() (exact match)",
+                          "an If-Range date is accepted when it is merely not older than the file: after a file is replaced by a version with an older mtime (rollback, cp -p, rsync -t) a client resuming with the old Last-Modified gets 206 and splices the tail of another file; any future date also yields 206")
